@@ -14,7 +14,8 @@ use serde_json::{json, Value};
 use std::cell::RefCell;
 use std::collections::BTreeSet;
 
-pub type Oracle = fn(&Case, &Outcome) -> Verdict;
+pub type Oracle = fn(&Case, &Outcome, u64) -> Verdict;
+pub type ExtraTier = fn(&mut Reporter, &mut Stats, Tier, &[Finding]);
 
 /// How a property uses the tiers
 pub struct E1Prop {
@@ -28,6 +29,8 @@ pub struct E1Prop {
     pub use_t0: bool,
     pub tape_len: usize,
     pub assumptions: &'static [&'static str],
+    /// property-specific additional tier (enumerations, scaling families)
+    pub extra: Option<ExtraTier>,
 }
 
 pub fn replay_value(prop: &str, case: &Case, detail: &str, origin: &str) -> Value {
@@ -110,6 +113,11 @@ pub fn run(prop: &E1Prop, tier: Tier) -> i32 {
     };
     t1(prop, seed, cases, &mut rep, &mut stats);
 
+    // 4. property-specific tier
+    if let Some(extra) = prop.extra {
+        extra(&mut rep, &mut stats, tier, &findings);
+    }
+
     ev.write(&stats, rep.violations, &rep.known_lines);
     eprintln!(
         "[{}] {} evaluations, {} distinct non-trivial, {} violations, {:.1}s",
@@ -138,9 +146,9 @@ fn replay_findings(prop: &E1Prop, findings: &[Finding], rep: &mut Reporter, stat
             for c in cases {
                 let Ok(case) = serde_json::from_value::<Case>(c) else { continue };
                 total += 1;
-                let (out, _) = run_format(&case);
+                let (out, ticks) = run_format(&case);
                 stats.count("known-finding-replay");
-                if (prop.oracle)(&case, &out).is_fail() {
+                if (prop.oracle)(&case, &out, ticks).is_fail() {
                     still += 1;
                 }
             }
@@ -161,8 +169,8 @@ fn t0(prop: &E1Prop, findings: &[Finding], rep: &mut Reporter, stats: &mut Stats
     }
     let results = par_map(&items, |_, (f, c)| {
         let case = Case::new(f.source.clone(), *c);
-        let (out, _) = run_format(&case);
-        let v = (prop.oracle)(&case, &out);
+        let (out, ticks) = run_format(&case);
+        let v = (prop.oracle)(&case, &out, ticks);
         (v, case.hash64(), out)
     });
     let mut known_hits: std::collections::BTreeMap<String, usize> = Default::default();
@@ -218,8 +226,8 @@ fn t1(prop: &E1Prop, seed: u64, cases: u32, rep: &mut Reporter, stats: &mut Stat
                 }
                 return Ok(());
             };
-            let (out, _) = run_format(&case);
-            let v = (prop.oracle)(&case, &out);
+            let (out, ticks) = run_format(&case);
+            let v = (prop.oracle)(&case, &out, ticks);
             let counting = !*failed.borrow();
             match v {
                 Verdict::Pass { nontrivial } => {
@@ -285,7 +293,7 @@ pub fn replay(prop: &E1Prop, v: &Value) -> i32 {
         return 2;
     };
     let (out, ticks) = run_format(&case);
-    let verdict = (prop.oracle)(&case, &out);
+    let verdict = (prop.oracle)(&case, &out, ticks);
     println!("input:\n{}", case.source);
     println!("config: {} ({})", case.cfg.label(), case.cfg.syntax.name());
     match &out {
